@@ -8,7 +8,7 @@ from checks import tsa_common as tc
 
 PID = 'C29'
 SCHEDULE_DEPENDENT = False
-RULE = ('seeded histories over 2-4 instances of 1-2 classes built with MetaThreadSafeAttributes (1-2 attributes each): '
+RULE = ('seeded histories over 2-4 instances of 1-2 classes built with MetaThreadSafeAttributes (1-2 attributes each; in 30% of the runs the classes define value-based __eq__/__hash__ so that distinct instances compare equal): '
         'instance creation at arbitrary points, instances that die and are replaced by new ones (address reuse), assignments, augmented assignments and reads written as source-line '
         'statements, executed by 1-3 simulated threads taking turns; oracle: a per-instance store model - every read returns '
         'the value last stored on that very instance (0 for a fresh instance), whatever was stored on other instances or '
@@ -37,7 +37,7 @@ def generate(seed, stratum, tier):
     k = rng.choice(['assign', 'assign', 'aug', 'read', 'read', 'renew'])
     val += 1
     ops.append({'thread': rng.randrange(3), 'inst': i, 'attr': a, 'kind': k, 'k': val * 3 + 1, 'step': step})
-  return {'nclasses': nclasses, 'attrs': attrs, 'instances': inst, 'ops': ops,
+  return {'nclasses': nclasses, 'attrs': attrs, 'instances': inst, 'ops': ops, 'value_equality': rng.random() < 0.3,
           'sched': {'gran': 'line', 'policy': 'sticky', 's': 1.0}}
 
 
@@ -61,7 +61,7 @@ def text(op):
 def execute(sc, sched):
   res = RunResult()
   sim = common.new_sim(sc, sched, max_steps=100000)
-  classes = [tc.make_class(sc['attrs'], 'Thing%d' % i) for i in range(sc['nclasses'])]
+  classes = [tc.make_class(sc['attrs'], 'Thing%d' % i, value_equality=sc.get('value_equality', False)) for i in range(sc['nclasses'])]
   objs = {}
   model = {}
   log = []
